@@ -11,6 +11,8 @@ class MemoSim:
         self.inputs = {}        # elem -> assigned value
         self.succ = {}          # elem -> set of elements computed from it (direct, through uncached cells)
         self.pred = {}          # elem -> set of elements it was computed from
+        self.upred = {}         # elem -> set of (sid, name) of uncached cells it ran (directly or through uncached cells)
+        self.refreads = {}      # elem -> set of (owner, name, how) read by its own formula when it was computed
         self.values = {}        # elem -> value the reference computed when the element acquired its value
         self.hits = 0           # cache hits inside formulas
         self.inversions = 0     # top-level requests for an element that was already held
@@ -54,17 +56,24 @@ class MemoSim:
             if elem[1] is not None:
                 log.append(elem)
             inner = elem if cached else caller
+            if not cached and caller is not None:
+                self.upred.setdefault(caller, set()).add((elem[0], elem[1]))
             for callee in trace.calls[elem]:
                 run(callee, inner, False)
             if cached:
                 self.held.add(elem)
+                self.refreads[elem] = set(trace.refreads.get(elem, ()))
                 if elem in trace.values:
                     self.values[elem] = trace.values[elem]
                 link(elem, caller)
         try:
             run(top, None, True)
         except _Abort:
-            pass
+            # elements on the failing chain acquired no value: forget the links recorded towards them
+            for e in [e for e in list(self.pred) if e not in self.held]:
+                for p in self.pred.pop(e, ()):
+                    self.succ.get(p, set()).discard(e)
+                self.upred.pop(e, None)
         return log
 
     # -- discarding -------------------------------------------------------------
@@ -86,6 +95,8 @@ class MemoSim:
             self.held.discard(e)
             self.inputs.pop(e, None)
             self.values.pop(e, None)
+            self.upred.pop(e, None)
+            self.refreads.pop(e, None)
             for p in self.pred.pop(e, ()):
                 self.succ.get(p, set()).discard(e)
             for s in self.succ.pop(e, ()):
